@@ -473,7 +473,7 @@ func TestC29(t *testing.T) {
 		return
 	}
 
-	n := c.N(200, 300)
+	n := c.N(200, 900)
 	for i := 0; i < n; i++ {
 		if c.SkipCase(i) {
 			continue
